@@ -143,6 +143,9 @@ def check(ctx, rep):
                 rep.ob("R-AWAIT", "f_proxy constructs the proxy", good, "f_proxy must pass the input future and kwargs['timeout'] (default MAX_TIMEOUT) to ProxyFuture, found timeout=%s" % (fmt(tv) if tv else None), where_of(fproxy, e.node))
     rep.require(n >= 1, "f_proxy: construction of ProxyFuture not found")
 
+    rep.rule("R-PROBE", "library code that handles a future it was given never uses hasattr/getattr on it with a name outside the Future API (a proxy would forward the lookup to the awaited result)")
+    probe_rule(ctx, rep, "R-PROBE")
+
     # ---- operator table
     forwarded = 0
     lib_mro = [c for c in proxy.mro() if isinstance(c, ClassInfo)]
@@ -230,3 +233,37 @@ def check(ctx, rep):
     ps, it = ctx.paths(fnc, None, depth=0)
     made = [e for p in ps for e in p.calls() if e.d["func"] == ("class", nc.key)]
     rep.ob("R-NOCANCEL", "f_nocancel returns the shield", bool(made) and all(e.d["args"][:1] == (("param", "future"),) for e in made), "f_nocancel must wrap its argument in NoCancelFuture", where_of(fnc))
+
+
+FUTURE_API = {"cancel", "cancelled", "running", "done", "result", "exception", "add_done_callback", "set_running_or_notify_cancel", "set_result", "set_exception"}
+FUTURE_USE = FUTURE_API | {"exception_info", "set_exception_info"}
+
+
+def probe_rule(ctx, rep, rule):
+    """shared with C16: library code never *probes* a future it was handed for an attribute that not every Future
+    has (hasattr / getattr with such a name).  A proxy future forwards unknown attributes to the awaited result, so
+    the probe blocks or re-raises the future's exception in the middle of library code (use `name in dir(f)`)."""
+    prog = ctx.prog
+    n = 0
+    for fi in sorted(prog.functions.values(), key=lambda f: f.key):
+        if fi.parent is not None:
+            continue
+        for ci in ctx.instances(fi):
+            ps, it = ctx.paths(fi, ci, depth=0)
+            used = set()
+            for p in ps:
+                for e in p.calls():
+                    if e.fn is fi and q.call_name(e) in FUTURE_USE and isinstance(q.recv(e), tuple):
+                        used.add(q.recv(e))
+            for p in ps:
+                for e in p.calls():
+                    if e.fn is not fi or e.d["func"] not in (("name", "hasattr"), ("name", "getattr")) or len(e.d["args"]) < 2:
+                        continue
+                    x, nm = e.d["args"][0], e.d["args"][1]
+                    if x == ("param", "self") or x not in used:
+                        continue
+                    n += 1
+                    safe = isinstance(nm, tuple) and nm[0] == "const" and nm[1] in FUTURE_API
+                    rep.ob(rule, "%s: no attribute probing of a future it was handed" % fi.qualname, safe, "%s(%s, %s): if the future is a proxy (f_proxy) the lookup of an attribute the Future class does not define is forwarded to the awaited result -- it blocks, or raises the future's own exception here, and the outcome is never copied" % (e.d["func"][1], fmt(x), fmt(nm)), where_of(fi, e.node), trace_of(p, e.seq))
+    return n
+
